@@ -1538,6 +1538,16 @@ class Tensor(object):
                 if self.batch:
                     if isinstance(key[0], int):
                         value = value[None]
+                    # NumPy semantics: non-batch modes selected by an integer are absent from the value
+                    ints = [
+                        i
+                        for i in range(1, len(key))
+                        if not isinstance(key[i], slice) and not hasattr(key[i], "__len__")
+                    ]
+                    if len(ints) > 0 and value.dim() == len(key) - len(ints):
+                        value = value[
+                            tuple(None if i in ints else slice(None) for i in range(len(key)))
+                        ]
                     if len(value.shape) == 1:
                         value = value[:, None]
 
